@@ -256,6 +256,7 @@ type Datagram struct {
 	Payload []byte
 	From    netip.AddrPort // for peers: the source the protocol reports; for targets: the sender
 	Raw     netip.AddrPort // transport-level sender
+	Via     netip.AddrPort // peers only: the local address of the socket the datagram arrived on
 }
 
 // UDPPeer is a downstream UDP client session over its own socket.
@@ -286,6 +287,7 @@ func (c *Client) NewUDPPeer(ip string) (*UDPPeer, error) {
 
 func (p *UDPPeer) readLoop(uc *net.UDPConn) {
 	hr := p.Sess.Unpacker.ClientUnpackerInfo().Headroom
+	via := uc.LocalAddr().(*net.UDPAddr).AddrPort()
 	for {
 		b := make([]byte, hr.Front+65535+hr.Rear)
 		n, from, err := uc.ReadFromUDPAddrPort(b[hr.Front : hr.Front+65535])
@@ -297,7 +299,7 @@ func (p *UDPPeer) readLoop(uc *net.UDPConn) {
 		if err != nil {
 			p.errs = append(p.errs, err.Error())
 		} else {
-			p.got = append(p.got, Datagram{RawLen: n, Payload: append([]byte{}, b[ps:ps+pl]...), From: src, Raw: from})
+			p.got = append(p.got, Datagram{RawLen: n, Payload: append([]byte{}, b[ps:ps+pl]...), From: src, Raw: from, Via: via})
 		}
 		p.mu.Unlock()
 	}
@@ -313,6 +315,9 @@ func (p *UDPPeer) Rebind(ip string) error {
 	go p.readLoop(uc)
 	return nil
 }
+
+// Local is the address of the socket the session currently sends from.
+func (p *UDPPeer) Local() netip.AddrPort { return p.Conn.LocalAddr().(*net.UDPAddr).AddrPort() }
 
 // Send packs and sends one datagram for target.
 func (p *UDPPeer) Send(target conn.Addr, payload []byte) error {
